@@ -18,6 +18,7 @@ Python sources mirrored (pinned in harness/c06.py):
                                        list_install_plan (exclude_*), write_intro_info
   mesonbuild/dependencies/base.py      Dependency.__init__ (`name = f'dep{uuid4().int}'`)
   mesonbuild/depfile.py                DepFile.get_all_dependencies
+  mesonbuild/compilers/compilers.py    CompileResult, Compiler.cached_compile;  mixins/gnu.py GnuCompiler.has_arguments
 Core Lean only (no Mathlib): this file is compiled into the native driver.
 -/
 namespace MesonModel.Det
@@ -299,6 +300,48 @@ def reachN (df : List (Str × List Str)) : Nat → List Str → List Str
 
 def getAllDependencies (df : List (Str × List Str)) (name : Str) : List Str :=
   sortedSet ((reachN df df.length [name]).flatMap (depsAt df))
+
+/-! ### cached compiler checks: `Compiler.cached_compile`, `coredata.compiler_check_cache` -/
+
+/-- `CompileResult` as far as verdicts read it -/
+structure CheckResult where
+  returncode : Int
+  stdout : Str
+  stderr : Str
+  deriving Repr, DecidableEq
+
+def isInfix (p : Str) : Str → Bool
+  | [] => p.isEmpty
+  | c :: cs => p.isPrefixOf (c :: cs) || isInfix p cs
+
+/-- `GnuLikeCompiler.has_arguments`: exit status, *and* the stderr note GNU compilers print (with exit
+status 0) for an option of the other language -/
+def gnuHasArguments (langIsC : Bool) (r : CheckResult) : Bool :=
+  r.returncode == 0 &&
+    !(isInfix (if langIsC then "is valid for C++/ObjC++".toList else "is valid for C/ObjC".toList) r.stderr)
+
+/-- `cached_compile`: the cached result when the key is present, else run the compiler and remember -/
+def cachedCompile {K} [DecidableEq K] (cache : List (K × CheckResult)) (run : K → CheckResult) (k : K) :
+    CheckResult × List (K × CheckResult) :=
+  match cache.lookup k with
+  | some r => (r, cache)
+  | none => (run k, (k, run k) :: cache)
+
+/-- what the next process finds in coredata.dat: every result through `__getstate__`/`__setstate__` -/
+def saveLoad {K} (pickle : CheckResult → CheckResult) (cache : List (K × CheckResult)) : List (K × CheckResult) :=
+  cache.map fun e => (e.1, pickle e.2)
+
+/-- the verdict of a check in a fresh build directory … -/
+def freshVerdict {K} [DecidableEq K] (v : CheckResult → Bool) (run : K → CheckResult) (k : K) : Bool :=
+  v (cachedCompile [] run k).1
+
+/-- … and the verdict of the same check on `setup --reconfigure` (cache written by the fresh run) -/
+def reconfigureVerdict {K} [DecidableEq K] (v : CheckResult → Bool) (pickle : CheckResult → CheckResult)
+    (run : K → CheckResult) (k : K) : Bool :=
+  v (cachedCompile (saveLoad pickle (cachedCompile [] run k).2) run k).1
+
+/-- on record, not the code: a `__getstate__` that drops stderr -/
+def dropStderr (r : CheckResult) : CheckResult := { r with stderr := [] }
 
 /-! ### files: `replace_if_different`, `os.replace`, in-place rewrite; a reconfigure -/
 
